@@ -629,6 +629,8 @@ def rnd_case(rng, cid, kinds, unit, ndev_max=2, scripts=True, maxz=99):
                     mids = longer
             p.append(dict(op="set", d=d, pid=pid_now, form=rng.choice(["plain", "file"]), mid=rng.choice(mids), sx=sx, sy=sy))
             last_set = p[-1]
+            if rng.random() < 0.12:
+                p.append(dict(p[-1]))          # the same settings given twice before the start (acquire_configure called twice)
             if rng.random() < 0.08:
                 continue                       # configured, never started
             p.append(dict(op="start", d=d))
